@@ -634,7 +634,7 @@ where
         let reason_code_buf = self.reason_code_buf.flatten();
         let props = self.props.flatten();
         let props_size: usize = props.as_ref().map_or(0, |p| p.size());
-        let property_length = VariableByteInteger::from_u32(props_size as u32).unwrap();
+        let property_length = VariableByteInteger::from_len(props_size)?;
 
         let mut remaining = mem::size_of::<PacketIdType>();
         // add reason code if present
@@ -645,7 +645,7 @@ where
         if props.is_some() {
             remaining += property_length.size() + props_size;
         }
-        let remaining_length = VariableByteInteger::from_u32(remaining as u32).unwrap();
+        let remaining_length = VariableByteInteger::from_len(remaining)?;
 
         Ok(GenericPuback {
             fixed_header: [FixedHeader::Puback.as_u8()],
